@@ -38,7 +38,7 @@ Proof.
 Qed.
 
 (* assemblies never modify the geometry: HeadMat after any number of HeadMat / other assemblies = HeadMat right away *)
-Definition is_assembly (o : gop) : bool := match o with GLoad _ => false | _ => true end.
+Definition is_assembly (o : gop) : bool := match o with GLoad _ | GFinalize => false | _ => true end.
 Lemma g_run_assemblies : forall fixed W h s, forallb is_assembly h = true -> g_run fixed W h s = s.
 Proof.
   induction h as [|o h IH]; intros s H; simpl in *; auto.
@@ -47,6 +47,23 @@ Qed.
 Lemma assemble_after_other_assemblies_lemma : forall fixed W h s, forallb is_assembly h = true ->
   snd (g_step fixed W GHeadMat (g_run fixed W h s)) = snd (g_step fixed W GHeadMat s).
 Proof. intros. rewrite g_run_assemblies; auto. Qed.
+
+(* repaired finalize(): calling it again on a freshly loaded geometry changes nothing *)
+Lemma finalize_idempotent_lemma : forall W i s0,
+  fst (g_step true W GFinalize (fst (g_step true W (GLoad i) s0))) = fst (g_step true W (GLoad i) s0)
+  /\ (d_finalized (nth i W dummy_desc) = true ->
+      snd (g_step true W GFinalize (fst (g_step true W (GLoad i) s0))) = g_observe 0 (fst (g_step true W (GLoad i) s0))).
+Proof.
+  intros W i s0. set (d := nth i W dummy_desc).
+  assert (E : g_loaded (g_load true i d s0) = Some i).
+  { unfold g_load. destruct (d_finalized d); reflexivity. }
+  assert (K : d_finalized d = true -> g_finalize d (g_reset_derived (g_load true i d s0)) = g_load true i d s0).
+  { intros Hf. unfold g_load. rewrite Hf. unfold g_finalize, g_reset_derived, g_clear. cbn. destruct (d_marks d); destruct (d_ndomains d); reflexivity. }
+  cbn [g_step fst snd]. fold d. rewrite E. fold d.
+  destruct (d_finalized d) eqn:Hf; cbn [fst snd].
+  - rewrite (K eq_refl). split; [reflexivity | intros _; reflexivity].
+  - split; [reflexivity | discriminate].
+Qed.
 
 (* the tree as found.  Descriptor 0: a three-layer nested head (Head1: 126 vertices, 5 communicating pairs);
    descriptor 1: a head with a fully immersed mesh whose vertices 0,1,2 are invalid; descriptor 2: the same
@@ -73,6 +90,11 @@ Proof. vm_compute. split; reflexivity. Qed.
 Lemma headmat_after_reload_lemma :
   snd (g_step false Gref GHeadMat (g_run false Gref [GLoad 0%nat; GLoad 0%nat] gst0)) <> snd (g_step false Gref GHeadMat (g_run false Gref [GLoad 0%nat] gst0))
   /\ snd (g_step true Gref GHeadMat (g_run true Gref [GLoad 0%nat; GLoad 0%nat] gst0)) = snd (g_step true Gref GHeadMat (g_run true Gref [GLoad 0%nat] gst0)).
+Proof. vm_compute. split; congruence. Qed.
+
+Lemma geometry_refinalize_pinned_refuted_lemma :
+  snd (g_step false Gref GFinalize (g_run false Gref [GLoad 0%nat] gst0)) <> g_observe 0 (g_run false Gref [GLoad 0%nat] gst0)
+  /\ snd (g_step true Gref GFinalize (g_run true Gref [GLoad 0%nat] gst0)) = g_observe 0 (g_run true Gref [GLoad 0%nat] gst0).
 Proof. vm_compute. split; congruence. Qed.
 
 (* ================= Sensors ================= *)
